@@ -837,6 +837,14 @@ def inline_private_helpers(idx: Index, fi: FunctionInfo, depth: int = 2) -> Func
                 for h in s.handlers:
                     h.body = process(h.body, level)
             rep = None
+            if level < depth and isinstance(s, ast.For) and helper_of(s.iter) is not None:
+                g_ = helper_of(s.iter)
+                count[0] += 1
+                tname = f"_h{count[0]}__{g_.name.strip('_')}"
+                pre_s = ast.copy_location(ast.Assign(targets=[ast.Name(id=tname, ctx=ast.Store())], value=s.iter, lineno=s.lineno), s)
+                s.iter = ast.copy_location(ast.Name(id=tname, ctx=ast.Load()), s.iter)
+                out += process([pre_s], level) + [s]
+                continue
             if level < depth and isinstance(s, (ast.Assign, ast.AugAssign, ast.Expr, ast.Return, ast.Assert)):
                 # hoist helper calls nested in an expression: `y = f(_h(a), b)` → `t = _h(a); y = f(t, b)` (analysis only)
                 top = s.value if isinstance(s, (ast.Assign, ast.AugAssign, ast.Expr, ast.Return)) else s.test
